@@ -1,3 +1,4 @@
+pub mod gamespy;
 pub mod valve;
 pub mod game_tables {
     include!(concat!(env!("OUT_DIR"), "/game_tables.rs"));
